@@ -3,6 +3,7 @@ import time
 import z3
 from . import sym
 from .sym import Sym, Val, Unsupported, Infeasible, PathLimit, EngineError
+from .symlist import PathEnd
 
 PROVED, REFUTED, UNKNOWN = 'proved', 'refuted', 'unknown'
 
@@ -355,6 +356,8 @@ class Explorer(object):
             sym.set_cur(p)
             try:
                 self.run(p)
+                self.paths += 1
+            except PathEnd:
                 self.paths += 1
             except Infeasible:
                 self.infeasible += 1
